@@ -4,7 +4,7 @@
      pysparkling/fileio/file.py        File.resolve_filenames   (comma split, strip, per-item dispatch)
      pysparkling/fileio/fs/__init__.py get_fs                   (scheme table: regenerated, PV.Gen.FsDispatch)
      pysparkling/fileio/fs/local.py    Local.resolve_filenames  (scheme prefix, exact-file shortcut, './' rule,
-                                        literal prefix, repaired leading-wildcard branch, dirname rule, walk,
+                                        literal prefix, repaired first-component-wildcard branch, dirname rule, walk,
                                         fnmatch against expr and expr + '/part*')
      pysparkling/utils.py              Tokenizer.get_next       (text before the first wildcard)
      pysparkling/context.py            textFile & co            (sorted(resolved_names))
@@ -211,7 +211,9 @@ Definition with_sep (e0 : str) : str := if has_slash e0 then e0 else dotslash ++
 Definition plan (e0 : str) : str * str :=
   let e1 := with_sep e0 in
   let p := lit_prefix e1 in
-  let '(e2, p2) := match p with [] => (dotslash ++ e1, dotslash) | _ :: _ => (e1, p) end in
+  (* a literal prefix without separator (wildcard in the first component of a relative item, fixes
+     94671f3 and 9d8ea91): search below the current directory *)
+  let '(e2, p2) := if has_slash p then (e1, p) else (dotslash ++ e1, dotslash) in
   let p3 := if negb (ends_slash p2) && has_slash p2 then dirname p2 else p2 in
   (e2, p3).
 
